@@ -29,7 +29,7 @@ func init() {
 				"into the serve functions.",
 			NotCovered: "equality of payloads across transports, framing arithmetic, message contents; the DNSCrypt goroutines " +
 				"belong to the dnscrypt library.",
-			Rules: map[string]string{"C01-R27": "both cache keys depend on the question's name, type and class (shared with C04-R2)", "C01-R28": "forward.Handler.ServeDNS returns the exchange error whenever there is one, also when a (mismatching) reply came with it (table shared with C17-R1)", "C01-R26": "request-path code does not write into the objects shared by all requests of a server group or profile (DDR record templates; shared with C07-R6)", "C01-R25": "bindtodevice writer: the request's deadline is set on the socket before the write", "C01-R24": "the response code the pipeline produced survives SetReply (Android metric path, cached results)", "C01-R23": "a handler that has written a response returns nil or that write's own error only (the server turns every other handler error into a second, SERVFAIL response)", "C01-RC": "class rules (error chains, shadowed results, character classes, crossed arguments, pool constructors, array pools, loop completeness, loop-carried buffers, replacing setters, complete clones, Grow arithmetic, pooled-buffer escape, sorted searches, fresh decode targets, per-iteration objects, whole-message copies, codec guards) over the packages this property rests on", "C01-R22": "slices.Grow amounts are computed from len(s), never from cap(s) (getTCPBuffer and every other growth site)", "C01-R20": "every Unpack is bounded by the bytes read for this message (shared with C06-R1); pooled RR parts are fully re-initialised by the cloner (shared with C07-R1)", "C01-R18": "the bytes of a received datagram stay the session's own until its response was written (buffer-lifetime rules shared with C06-R2)", "C01-R19": "Android metric-domain path: the pipeline serves a clone under the shared name; the response is made a reply to the client's own message (SetReply, replaceResp) before it is written, with or without answers",
+			Rules: map[string]string{"C01-R29": "a stream connection is closed only after the wait for its in-flight queries: in serveTCPConn the close runs in the deferred function that waits, after the wait, or in a function deferred earlier (run later); never in the body or in a function deferred later", "C01-R30": "isNonCriticalNetError is true for a deadline error and for every net.Error that reports a timeout (the context.DeadlineExceeded of the DoQ accept poll is one): the accept and read loops go on after a poll that found nothing", "C01-R27": "both cache keys depend on the question's name, type and class (shared with C04-R2)", "C01-R28": "forward.Handler.ServeDNS returns the exchange error whenever there is one, also when a (mismatching) reply came with it (table shared with C17-R1)", "C01-R26": "request-path code does not write into the objects shared by all requests of a server group or profile (DDR record templates; shared with C07-R6)", "C01-R25": "bindtodevice writer: the request's deadline is set on the socket before the write", "C01-R24": "the response code the pipeline produced survives SetReply (Android metric path, cached results)", "C01-R23": "a handler that has written a response returns nil or that write's own error only (the server turns every other handler error into a second, SERVFAIL response)", "C01-RC": "class rules (error chains, shadowed results, character classes, crossed arguments, pool constructors, array pools, loop completeness, loop-carried buffers, replacing setters, complete clones, Grow arithmetic, pooled-buffer escape, sorted searches, fresh decode targets, per-iteration objects, whole-message copies, codec guards) over the packages this property rests on", "C01-R22": "slices.Grow amounts are computed from len(s), never from cap(s) (getTCPBuffer and every other growth site)", "C01-R20": "every Unpack is bounded by the bytes read for this message (shared with C06-R1); pooled RR parts are fully re-initialised by the cloner (shared with C07-R1)", "C01-R18": "the bytes of a received datagram stay the session's own until its response was written (buffer-lifetime rules shared with C06-R2)", "C01-R19": "Android metric-domain path: the pipeline serves a clone under the shared name; the response is made a reply to the client's own message (SetReply, replaceResp) before it is written, with or without answers",
 				"C01-R1": "acceptMsg decision table", "C01-R2": "serveDNS (undecodable input dropped) and serveDNSMsgInternal gate/effect tables",
 				"C01-R3": "at most one write event per ResponseWriter parameter on every path",
 				"C01-R4": "DoQ and DoH glue: one answer per request, from this request's recorder (SERVFAIL / HTTP 500 when nothing was written, HTTP 400 for undecodable requests)", "C01-R5": "defer handlePanicAndRecover dominates serving",
@@ -244,6 +244,31 @@ func (s *c01Summ) noWriteOnEdge(e an.CondEdge, call *ssa.Call) bool {
 }
 
 func runC01(c *an.Ctx) {
+	// ---- R29: close after wait; R30: what keeps the accept / read loops going
+	c.Floor("C01-R29", 1)
+	c01CloseAfterWait(c, "C01-R29")
+	c.Floor("C01-R30", 1)
+	decide(c, "C01-R30", "dnsserver.isNonCriticalNetError", an.DecideCfg{
+		Dom: an.Domain{"isdeadline": an.Bools, "asnet": an.Bools, "timeout": an.Bools},
+		OnCall: func(it *an.Interp, name string, args []an.AV) (an.AV, bool) {
+			switch {
+			case strings.HasSuffix(name, "errors.Is"):
+				return it.Feature("isdeadline"), true
+			case strings.HasSuffix(name, "errors.As"):
+				return it.Feature("asnet"), true
+			case strings.HasSuffix(name, ".Timeout"):
+				return it.Feature("timeout"), true
+			}
+			return an.AV{}, false
+		},
+		Expect: func(f an.Features, o an.AOutcome) string {
+			want := f.B("isdeadline") || f.B("asnet") && f.B("timeout")
+			if o.RetString() == fmt.Sprint(want) {
+				return ""
+			}
+			return fmt.Sprintf("%v (true for a deadline error and for any net.Error with Timeout() true)", want)
+		},
+	})
 	classSweep(c, "C01")
 	// ---- R27: an answer served from a cache belongs to the question's name, type and class (key rules shared with
 	// C04-R2); R28: an upstream reply that failed validation is reported as an error, never written (table of the
@@ -1599,4 +1624,94 @@ func c01WriteDeadline(c *an.Ctx) {
 	}
 	c.Check(set != nil && write != nil && an.Dominates(set, write), "C01-R25", k+" sets the request's deadline before writing", fn.Pos(),
 		"SetWriteDeadline(req.deadline) dominates the write", "the write is not preceded by SetWriteDeadline(req.deadline): an abandoned request whose buffer was recycled is still sent, with another response's bytes")
+}
+
+// c01CloseAfterWait: serveTCPConn starts a goroutine per query of a connection
+// and counts them in a wait group.  When the read loop ends (the client
+// half-closed, the idle timeout passed, the server stops), the queries still
+// being processed must be answered before the connection is closed.  Deferred
+// functions run in reverse order of registration: the close of the connection
+// is either in the deferred function that waits, after the wait, or in a
+// function deferred before it.
+func c01CloseAfterWait(c *an.Ctx, rule string) {
+	k := "dnsserver.(*ServerDNS).serveTCPConn"
+	fn := c.Prog.Fn(k)
+	key := k + " closes the connection only after waiting for its queries"
+	if fn == nil {
+		c.Und(rule, key, token.NoPos, "anchor not found")
+		return
+	}
+	c.Analysed(k)
+	isClose := func(call ssa.CallInstruction) bool {
+		cc := call.Common()
+		if strings.HasSuffix(an.CalleeName(call), "golibs/log.OnCloserError") {
+			return true
+		}
+		return cc.IsInvoke() && cc.Method.Name() == "Close" && strings.HasSuffix(cc.Value.Type().String(), "net.Conn")
+	}
+	isWait := func(call ssa.CallInstruction) bool { return an.CalleeName(call) == "(*sync.WaitGroup).Wait" }
+	// what a function does itself or, one level down, through a static callee of the repository
+	type info struct {
+		wait, close ssa.CallInstruction
+	}
+	scan := func(f *ssa.Function) (inf info) {
+		for _, call := range an.Calls(f) {
+			switch {
+			case isWait(call) && strings.Contains(call.Common().Args[0].Type().String(), "WaitGroup"):
+				// the per-connection group is a local or captured variable, not the server's own s.wg
+				if p, ok := an.AccessPath(call.Common().Args[0]); !ok || !strings.Contains(p, ".wg") {
+					inf.wait = call
+				}
+			case isClose(call):
+				inf.close = call
+			}
+		}
+		return inf
+	}
+	var defers []ssa.CallInstruction
+	an.Instrs(fn, func(in ssa.Instruction) {
+		if d, ok := in.(*ssa.Defer); ok {
+			defers = append(defers, d)
+		}
+	})
+	waitIdx, bad := -1, ""
+	infos := make([]info, len(defers))
+	for i, d := range defers {
+		callee := an.StaticCallee(d)
+		if callee == nil || callee.Blocks == nil {
+			continue
+		}
+		infos[i] = scan(callee)
+		if infos[i].wait != nil {
+			waitIdx = i
+		}
+	}
+	if waitIdx < 0 {
+		c.Und(rule, key, fn.Pos(), "no deferred function of serveTCPConn waits for the connection's wait group")
+		return
+	}
+	closes := 0
+	if body := scan(fn); body.close != nil {
+		closes++
+		bad = "the connection is closed in the body at " + c.Pos(body.close.Pos()) + ", before any deferred wait"
+	}
+	for i, inf := range infos {
+		if inf.close == nil {
+			continue
+		}
+		closes++
+		switch {
+		case i == waitIdx:
+			if !an.Dominates(inf.wait, inf.close) {
+				bad = "the close at " + c.Pos(inf.close.Pos()) + " is not preceded by the wait in the same deferred function"
+			}
+		case i > waitIdx:
+			bad = "the close at " + c.Pos(inf.close.Pos()) + " is in a function deferred after the one that waits, so it runs first: the queries still in flight write to a closed connection and get no answer"
+		}
+	}
+	if closes == 0 {
+		c.Und(rule, key, fn.Pos(), "no close of the connection found in serveTCPConn or its deferred functions")
+		return
+	}
+	c.Check(bad == "", rule, key, fn.Pos(), fmt.Sprintf("%d close site(s), each after the wait", closes), bad)
 }
